@@ -328,10 +328,13 @@ MMIORegion::MMIORegion(MemoryInterfaceUnit& miu, ICU& icu, Apbp& apbp_from_cpu, 
     // impl->cells[0x210]; // source type for each interrupt?
     for (unsigned i = 0; i < 16; ++i) {
         impl->cells[0x212 + i * 4] = Cell::BitFieldCell({
-            BitFieldSlot::RefSlot(0, 2, icu.vector_high[i]),
-            BitFieldSlot::RefSlot(15, 1, icu.vector_context_switch[i]),
+            BitFieldSlot{0, 2, std::bind(&ICU::SetVectorHigh, &icu, i, _1),
+                         std::bind(&ICU::GetVectorHigh, &icu, i)},
+            BitFieldSlot{15, 1, std::bind(&ICU::SetVectorContextSwitch, &icu, i, _1),
+                         std::bind(&ICU::GetVectorContextSwitch, &icu, i)},
         });
-        impl->cells[0x214 + i * 4] = Cell::RefCell(icu.vector_low[i]);
+        impl->cells[0x214 + i * 4].set = std::bind(&ICU::SetVectorLow, &icu, i, _1);
+        impl->cells[0x214 + i * 4].get = std::bind(&ICU::GetVectorLow, &icu, i);
     }
 
     // BTDMP
